@@ -287,6 +287,14 @@ func VH_C15b() {
 		isOld := body == "old" && string(o.Hash) == string(oldSum[:]) && o.Size == 3
 		isNew := body == string(newBody) && string(o.Hash) == string(newSum[:]) && int(o.Size) == len(newBody)
 		vsym.Assert((allowOld && isOld) || (allowNew && isNew), tag+"/torn-object-after-restart")
+		// ... and its metadata belongs to the same write as its bytes
+		metaOld := o.Metadata["X-Amz-Meta-A"] == "o" && o.Metadata["Content-Type"] == "t/old"
+		metaNew := o.Metadata["X-Amz-Meta-A"] == "n" && (key != "x" || o.Metadata["Content-Type"] == "t/new")
+		// recorded finding: the object file is renamed into place before its
+		// metadata record is written, so a kill in between shows the new bytes
+		// without the new write's metadata
+		vsym.KnownRegion("KF-C15-fs-put-metadata-not-atomic", vsym.And(crashed, vsym.And(isNew, !metaNew)))
+		vsym.Assert((allowOld && isOld && metaOld) || (allowNew && isNew && metaNew), tag+"/torn-metadata-after-restart")
 		listed := false
 		for _, k := range ks {
 			if k == key {
